@@ -4,7 +4,7 @@
 # (The files under /verif/evidence are rewritten by every run; the quick tier is re-run afterwards.)
 mkdir -p /verif/evidence_thorough
 sum=/verif/evidence_thorough/SUMMARY.txt
-: > $sum
+[ -n "${APPEND:-}" ] || : > $sum
 for id in ${IDS:-C01 C14 C02 C05 C10 C13 C12 C18 C19 C11 C08 C07 C09 C15 C03 C04 C06 C17}; do
   start=$(date +%s)
   /verif/bin/verif check $id --tier thorough ${EXTRA:-} > /tmp/thorough-$id.log 2>&1
